@@ -151,8 +151,8 @@ template <class C> Verdict check_C20(const Plan& plan, Stats& st) {
     st.fault(plan.sched_policy == 1 ? "schedule.rr_alloc" : plan.sched_policy == 2 ? "schedule.change_points" : plan.sched_policy == 3 ? "schedule.random_walk" : "schedule.replayed_trace");
     unsigned long long th = 1469598103934665603ull;
     for (int x : out.order) th = fnv1a(&x, sizeof x, th);
+    st.schedules.insert(th);   // the interleaving itself: the sequence of (step, task) control transfers, whatever the world
     th = fnv1a(&plan.run_seed, sizeof plan.run_seed, th);
-    st.schedules.insert(th);
     for (auto sp : out.switch_points) st.switch_points.insert(sp);
     if (out.switches > 1) { st.nontrivial++; st.signatures.insert(th); }
     Plan q = plan; q.sched_trace = out.trace; q.sched_policy = 0;
